@@ -1157,7 +1157,7 @@ pub fn cases(kind: &str, tier: &str, seed: u64) -> Vec<Value> {
                 }
             }
             // errors must not leave anything behind either: the same too-deep / truncated input many times on one thread
-            for &(depth, times) in [(100_000u64, 3000u64), (300, 20_000)].iter() {
+            for &(depth, times) in [(100_000u64, 30_000u64), (300, 30_000)].iter() {
                 v.push(json!({"t":"amfrepeat","depth":depth,"times":times}));
             }
             // string and name lengths walking up (and down) through every power of two on one thread
@@ -1181,6 +1181,19 @@ pub fn cases(kind: &str, tier: &str, seed: u64) -> Vec<Value> {
             }
         }
         "hostile" => {
+            // the AMF0 decoder is part of "a message decoder": the structural shapes of the amfdeep suite (not its deep pumping)
+            for c in cases("amfdeep", tier, seed).into_iter() {
+                let keep = match c["t"].as_str().unwrap_or("") {
+                    "amfwalk" | "amfseq" | "amfrepeat" => true,
+                    "amf" => match c["shape"].as_str().unwrap_or("") {
+                        "refbomb" | "longname" | "keys" | "lie" => true,
+                        "props" => c["n"].as_u64().unwrap_or(0) <= 50_000,
+                        _ => false,
+                    },
+                    _ => false,
+                };
+                if keep { v.push(c); }
+            }
             let reps = if thorough { 24 } else { 1 };
             for _ in 0..reps {
                 for class in 0..11u64 {
